@@ -7,7 +7,7 @@ VERIF = build.VERIF
 EVID = os.path.join(VERIF, "evidence")
 REPLAYS = os.path.join(VERIF, "replays")
 KF_PATH = os.path.join(VERIF, "KNOWN_FINDINGS.json")
-PROPS_DIR = os.path.join(VERIF, "lean", "props")
+PROPS_DIR = os.path.join(build.LEAN, "props")
 
 def load_findings():
     try:
